@@ -35,6 +35,7 @@ Section Generic.
   Definition o2 : T := #2.
   Definition ohalf : T := ofrac 1 2.
   Definition osq (x : T) : T := x *! x.
+  Definition iff0 (b : bool) (x : T) : T := if b then x else o0.
   Definition omax (a b : T) : T := if a <!? b then b else a.
   Definition omin (a b : T) : T := if a <!? b then a else b.
 
